@@ -23,6 +23,9 @@
 #include <ctype.h>
 #include <stddef.h>
 
+#ifdef USE_VALGRIND
+#include <valgrind/memcheck.h>
+#endif
 #include "adflib.h"
 #include "adf_dev_dump.h"
 #include "adf_dev_flop.h"
@@ -169,6 +172,10 @@ RETCODE __wrap_adfReadDumpSector(struct AdfDevice * const dev, const uint32_t n,
 RETCODE __wrap_adfWriteDumpSector(struct AdfDevice * const dev, const uint32_t n,
                                   const unsigned size, const uint8_t * const buf) {
     g_writes_op++;
+#ifdef USE_VALGRIND
+    /* every byte handed to the device must be defined (reported by memcheck with the call stack) */
+    (void) VALGRIND_CHECK_MEM_IS_DEFINED(buf, size);
+#endif
     if (fault_now()) { tprintf("W %u %u !\n", n, size); return RC_ERROR; }
     RETCODE rc = __real_adfWriteDumpSector(dev, n, size, buf);
     tprintf("W %u %u %08x%s\n", n, size, fnv(buf,size), rc==RC_OK?"":" e");
